@@ -723,7 +723,9 @@ func enums(c *engine.Ctx) {
 		d.Metadata.DocumentTypes = []*sbom.DocumentType{{Name: &n, Description: &ds}, {Type: sbom.DocumentType_BUILD.Enum()}}
 		return d
 	})
-	for _, ver := range []string{"0", "1", "7", "123"} {
+	// the numeric document version over the corners of the integer ranges it may pass through (32-bit, the 53 bits a
+	// float64 holds exactly, 64-bit)
+	for _, ver := range []string{"0", "1", "7", "123", "2147483647", "2147483648", "4294967297", "9007199254740992", "9007199254740993", "1700000000000000001", "9223372036854775807"} {
 		ver := ver
 		one("document version "+ver, func() *sbom.Document {
 			d := docOf(two())
